@@ -31,7 +31,7 @@ META = {
         '1..40 high. Besides page 0 the oracle runs on non-zero active pages (active = or <> visible) reached by SCREEN m,,a,v and by MODE changes that keep the page numbers (SCREEN other,,a,v : SCREEN m,,a,v), always reading the buffer of the page the last SCREEN statement made active. A seed-independent core enumerates all 225 displacement vectors with |dx|,|dy| <= 7, the screen corners and edges, '
         'degenerate rectangles and every sprite width 1..18, 31..33, 63..65, 70 at 8 horizontal alignments.'),
     'level_note': (
-        'The statement does not pin WHICH 8-connected path a line takes (rounding), nor default colours, styles or clipped cases: not tested. '
+        'Every coordinate form is covered (absolute, STEP on the first / second / both points, omitted first point, PSET/PRESET STEP, GET ..-STEP, CIRCLE STEP compared with its absolute form) after a history statement moved the last referenced point; that point is OBSERVED through POINT(0)/POINT(1), the second point with STEP is taken relative to the first (GW-BASIC manual), and POINT(0)/POINT(1) afterwards must be the last point the statement referenced (key coord:last-point-after:<PRIM>). The statement does not pin WHICH 8-connected path a line takes (rounding), nor default colours, styles or clipped cases: not tested. '
         'GET may legitimately refuse a rectangle (Tandy SCREEN 6 reads twice the width): a refused GET/PUT pair is counted (sprite_rejected) '
         'and only the literal clause (screen unchanged / restored) is checked. Trusted: page-buffer read (validated against Session.get_pixels), '
         'determinism of a statement executed twice.'),
@@ -39,7 +39,7 @@ META = {
              'ran without error and (for sprites) covered at least one pixel; background contents differ for every case'),
     'design_ref': 'DESIGN.md section 4 C31',
     'assumptions': ['a statement repeated with another colour draws the same pixel set'],
-    'require_counters': {'any': ['history_nonzero_page', 'history_mode_change_keeping_pages', 'history_active_ne_visible', 'pset_cases', 'line_cases', 'lines_steep', 'lines_shallow', 'lines_diagonal', 'lines_axis_parallel',
+    'require_counters': {'any': ['form_step_abs', 'form_abs_step', 'form_omit_abs', 'form_omit_step', 'form_step_step', 'form_pset_step', 'form_get_step', 'circle_step_cases', 'last_point_elsewhere', 'last_point_matched', 'history_nonzero_page', 'history_mode_change_keeping_pages', 'history_active_ne_visible', 'pset_cases', 'line_cases', 'lines_steep', 'lines_shallow', 'lines_diagonal', 'lines_axis_parallel',
                                  'box_cases', 'boxfill_cases', 'getput_cases', 'xor_cases', 'xor_changed_seen',
                                  'sprite_width_not_multiple_of_8', 'bpp_1', 'bpp_2', 'bpp_4', 'point_matched']},
     'timeout': {'quick': 900, 'thorough': 3600},
@@ -52,7 +52,7 @@ def plan(tier, seed):
     if tier == 'quick':
         groups = gfx.balanced_groups(labels, 12, lambda l: 3.0 + 6e-6 * gfx.mode_cost(gfx.MODE_BY_LABEL[l]))
         for i, g in enumerate(groups):
-            shards.append({'kind': 'geom', 'modes': g, 'n': 900, 'part': i, 'directed': True})
+            shards.append({'kind': 'geom', 'modes': g, 'n': 700, 'part': i, 'directed': True})
     else:
         for l in labels:
             for p in range(4):
@@ -90,14 +90,17 @@ class Ctx(object):
             return False
         return True
 
-    def drawn_set(self, fmt, kind, rng, case):
-        """Two-pass measurement: -> (set of drawn pixels) or None; reports colour / stray faults."""
+    def drawn_set(self, fmt, kind, rng, case, pre2=None):
+        """Two-pass measurement: -> (set of drawn pixels) or None; reports colour / stray faults.
+        pre2: called before the second pass (re-establishes the last referenced point for STEP forms)."""
         g, res = self.g, self.res
         c1, c2 = self.two_colours(rng)
         case['colours'] = [c1, c2]
         s0 = g.active()
         if not self.run(fmt % c1, kind, case):
             return None
+        if pre2 is not None:
+            pre2()
         s1 = g.active()
         if not self.run(fmt % c2, kind, case):
             return None
@@ -116,14 +119,128 @@ class Ctx(object):
                 g.mode['label'], (fmt % c1).decode('latin-1'), stray[0]), case)
         return dset
 
+    # -- coordinate forms -----------------------------------------------------------------
+    # STEP coordinates are relative to the last referenced point, which is OBSERVED through
+    # POINT(0)/POINT(1) after a history statement left it somewhere else; the second point of
+    # LINE/GET given with STEP is relative to the first point (GW-BASIC manual).  The geometry
+    # oracle is applied to the coordinates so resolved.
+    LINE_FORMS = ['abs-abs', 'step-abs', 'abs-step', 'omit-abs', 'omit-step', 'step-step']
+
+    def lastpoint(self):
+        try:
+            return (self.g.box.ev(b'POINT(0)'), self.g.box.ev(b'POINT(1)'))
+        except harness.Internal as e:
+            self.res.violation(e.key, 'POINT(0)/POINT(1): %s' % e, {'mode': self.g.mode['label']})
+            raise
+
+    def history(self, rng, kind=None):
+        """Leave the last referenced point somewhere else with an ordinary statement; -> observed (x, y) or None."""
+        g = self.g
+        hx, hy = rng.randint(2, g.w - 3), rng.randint(2, g.h - 3)
+        kind = kind or rng.choice(['pset', 'line', 'line-b', 'circle', 'draw', 'draw-move', 'none'] * 5 + ['paint'])
+        c = rng.randrange(g.nattr)
+        if kind == 'pset':
+            g.direct(b'PSET(%d,%d),%d' % (hx, hy, c))
+        elif kind == 'line':
+            g.direct(b'LINE(%d,%d)-(%d,%d),%d' % (rng.randrange(g.w), rng.randrange(g.h), hx, hy, c))
+        elif kind == 'line-b':
+            g.direct(b'LINE(%d,%d)-(%d,%d),%d,B' % (max(0, hx - 9), max(0, hy - 5), hx, hy, c))
+        elif kind == 'circle':
+            g.direct(b'CIRCLE(%d,%d),%d,%d' % (hx, hy, rng.randint(0, 12), c))
+        elif kind == 'draw':
+            g.direct(b'DRAW "BM%d,%d"' % (hx, hy))
+        elif kind == 'draw-move':
+            g.direct(b'DRAW "BM%d,%d C%d S4 R2 BU1"' % (min(hx, g.w - 5), max(hy, 2), c))
+        elif kind == 'paint':
+            g.direct(b'PAINT(%d,%d),%d,%d' % (hx, hy, c, c))
+        self.res.count('history_' + kind.replace('-', '_'))
+        lp = self.lastpoint()
+        if lp[0] != int(lp[0]) or lp[1] != int(lp[1]):
+            return None
+        return (int(lp[0]), int(lp[1]))
+
+    def repoint(self, lp):
+        """Make lp the last referenced point again without changing the picture."""
+        g = self.g
+        snap = g.active()
+        g.direct(b'PSET(%d,%d),%d' % (lp[0], lp[1], snap[lp[1] * g.w + lp[0]]))
+
+    def onscreen(self, p):
+        return p is not None and 0 <= p[0] < self.g.w and 0 <= p[1] < self.g.h
+
+    def two_point_form(self, rng, p0, p1, form):
+        """-> (form, coordinate text, resolved p0, resolved p1, lp)"""
+        lp = self.history(rng)
+        if not self.onscreen(lp):
+            form = 'abs-abs' if form.startswith(('omit', 'step')) else form
+        if form.startswith('omit'):
+            p0 = lp
+        a = {'abs': b'(%d,%d)' % p0, 'omit': b''}.get(form.split('-')[0])
+        if a is None:
+            a = b'STEP(%d,%d)' % (p0[0] - lp[0], p0[1] - lp[1])
+        if form.endswith('-abs'):
+            b = b'(%d,%d)' % p1
+        else:
+            b = b'STEP(%d,%d)' % (p1[0] - p0[0], p1[1] - p0[1])
+        self.res.count('form_' + form.replace('-', '_'))
+        if lp is not None and lp != p0:
+            self.res.count('last_point_elsewhere')
+        return form, a + b'-' + b, p0, p1, lp
+
+    def check_lastpoint(self, expect, prim, case):
+        lp = self.lastpoint()
+        if (lp[0], lp[1]) != (expect[0], expect[1]):
+            self.res.violation('coord:last-point-after:' + prim,
+                               '%s: after %s POINT(0),POINT(1) = %r, expected %r' % (self.g.mode['label'], case.get('stmt', prim), lp, expect), case)
+        else:
+            self.res.count('last_point_matched')
+
+    def circle_step(self, rng, centre, r):
+        """CIRCLE STEP(dx,dy),r,c must draw the set CIRCLE (x,y),r,c draws for the resolved centre."""
+        g, res = self.g, self.res
+        lp = self.history(rng)
+        if not self.onscreen(lp):
+            return
+        case = {'mode': g.mode['label'], 'prim': 'CIRCLE STEP', 'last_point': list(lp), 'centre': list(centre), 'r': r}
+        fmt = b'CIRCLE STEP(%d,%d),%d,%%d' % (centre[0] - lp[0], centre[1] - lp[1], r)
+        case['stmt'] = (fmt % 0).decode()
+        d1 = self.drawn_set(fmt, 'circle', rng, case, pre2=lambda: self.repoint(lp))
+        if d1 is None:
+            return
+        self.check_lastpoint(centre, 'CIRCLE', case)
+        d2 = self.drawn_set(b'CIRCLE(%d,%d),%d,%%d' % (centre[0], centre[1], r), 'circle', rng, case)
+        if d2 is None:
+            return
+        res.case(('circle-step', (g.mode['label'], g.apage, g.vpage), lp, centre, r))
+        res.count('circle_step_cases')
+        if d1 != d2:
+            res.violation('coord:step-form-differs-from-absolute:CIRCLE',
+                          '%s: last point %r: %s drew %d pixels, CIRCLE(%d,%d),%d drew %d' % (
+                              g.mode['label'], lp, case['stmt'], len(d1), centre[0], centre[1], r, len(d2)), case)
+
     # -- primitives ----------------------------------------------------------------------
-    def pset(self, rng, x, y):
+    def pset(self, rng, x, y, form=None):
         g, res = self.g, self.res
         s0 = g.active()
         old = self.pixel(s0, x, y)
         c = rng.choice([k for k in range(g.nattr) if k != old])
         case = {'mode': g.mode['label'], 'prim': 'PSET', 'xy': [x, y], 'colour': c, 'old': old}
         stmt = b'PSET(%d,%d),%d' % (x, y, c)
+        if form is not None:
+            # form = ('PSET' | 'PRESET', step?)
+            lp = self.history(rng, kind=rng.choice(['pset', 'line', 'circle', 'draw', 'draw-move']))
+            s0 = g.active()
+            old = self.pixel(s0, x, y)
+            c = rng.choice([k for k in range(g.nattr) if k != old])
+            word, step = form
+            if step and self.onscreen(lp):
+                stmt = b'%s STEP(%d,%d),%d' % (word, x - lp[0], y - lp[1], c)
+                res.count('form_pset_step')
+                if lp != (x, y):
+                    res.count('last_point_elsewhere')
+            else:
+                stmt = b'%s(%d,%d),%d' % (word, x, y, c)
+            case.update({'colour': c, 'old': old, 'last_point': list(lp) if lp else None, 'stmt': stmt})
         if not self.run(stmt, 'pset', case):
             res.case(('pset', (g.mode['label'], g.apage, g.vpage), x, y, c), nontrivial=False)
             return
@@ -142,6 +259,8 @@ class Ctx(object):
         except harness.Internal as e:
             res.violation(e.key, 'POINT(%d,%d): %s' % (x, y, e), case)
             raise
+        if form is not None:
+            self.check_lastpoint((x, y), 'PSET', case)
         if pv != c:
             res.violation('pset:point-mismatch', '%s: after %s POINT(%d,%d) = %r' % (g.mode['label'], stmt.decode(), x, y, pv), case)
         else:
@@ -149,11 +268,21 @@ class Ctx(object):
         if self.n < 1:
             res.sample(dict(case, point=pv, changed=d))
 
-    def line(self, rng, p0, p1):
+    def line(self, rng, p0, p1, form=None):
         g, res = self.g, self.res
-        case = {'mode': g.mode['label'], 'prim': 'LINE', 'p0': list(p0), 'p1': list(p1)}
-        fmt = b'LINE(%d,%d)-(%d,%d),%%d' % (p0[0], p0[1], p1[0], p1[1])
-        d = self.drawn_set(fmt, 'line', rng, case)
+        pre2 = None
+        coords = b'(%d,%d)-(%d,%d)' % (p0[0], p0[1], p1[0], p1[1])
+        lp = None
+        if form is not None:
+            form, coords, p0, p1, lp = self.two_point_form(rng, p0, p1, form)
+            if lp is not None and self.onscreen(lp):
+                pre2 = lambda: self.repoint(lp)
+        case = {'mode': g.mode['label'], 'prim': 'LINE', 'p0': list(p0), 'p1': list(p1), 'form': form, 'last_point': list(lp) if lp else None,
+                'stmt': 'LINE' + coords.decode()}
+        fmt = b'LINE ' + coords + b',%d'
+        d = self.drawn_set(fmt, 'line', rng, case, pre2)
+        if d is not None and form is not None:
+            self.check_lastpoint(p1, 'LINE', case)
         if d is None:
             res.case(('line', (g.mode['label'], g.apage, g.vpage), p0, p1), nontrivial=False)
             return
@@ -175,12 +304,22 @@ class Ctx(object):
         if self.n < 2:
             res.sample(dict(case, pixels_drawn=len(d)))
 
-    def box(self, rng, p0, p1, filled):
+    def box(self, rng, p0, p1, filled, form=None):
         g, res = self.g, self.res
         kind = 'boxfill' if filled else 'box'
-        case = {'mode': g.mode['label'], 'prim': 'LINE,' + ('BF' if filled else 'B'), 'p0': list(p0), 'p1': list(p1)}
-        fmt = b'LINE(%d,%d)-(%d,%d),%%d,%s' % (p0[0], p0[1], p1[0], p1[1], b'BF' if filled else b'B')
-        d = self.drawn_set(fmt, kind, rng, case)
+        pre2 = None
+        coords = b'(%d,%d)-(%d,%d)' % (p0[0], p0[1], p1[0], p1[1])
+        lp = None
+        if form is not None:
+            form, coords, p0, p1, lp = self.two_point_form(rng, p0, p1, form)
+            if lp is not None and self.onscreen(lp):
+                pre2 = lambda: self.repoint(lp)
+        case = {'mode': g.mode['label'], 'prim': 'LINE,' + ('BF' if filled else 'B'), 'p0': list(p0), 'p1': list(p1), 'form': form,
+                'last_point': list(lp) if lp else None, 'stmt': 'LINE' + coords.decode() + (',BF' if filled else ',B')}
+        fmt = b'LINE ' + coords + b',%d,' + (b'BF' if filled else b'B')
+        d = self.drawn_set(fmt, kind, rng, case, pre2)
+        if d is not None and form is not None:
+            self.check_lastpoint(p1, 'LINE', case)
         if d is None:
             res.case((kind, g.mode['label'], p0, p1), nontrivial=False)
             return
@@ -194,8 +333,9 @@ class Ctx(object):
                           '%s: %s drew %d pixels, expected %d; missing %r extra %r' % (
                               g.mode['label'], (fmt % 0).decode(), len(d), len(exp), missing, extra), case)
 
-    def sprite(self, rng, src, dst, xor):
-        """src=(x0,y0,x1,y1) corners as given to GET; dst=(x,y) PUT position for the XOR case."""
+    def sprite(self, rng, src, dst, xor, step=False):
+        """src=(x0,y0,x1,y1) corners as given to GET; dst=(x,y) PUT position for the XOR case.
+        step: the second corner is written STEP(dx,dy) (relative to the first) after a history statement."""
         g, res = self.g, self.res
         x0, y0, x1, y1 = src
         sw, sh = abs(x1 - x0) + 1, abs(y1 - y0) + 1
@@ -203,7 +343,13 @@ class Ctx(object):
         case = {'mode': g.mode['label'], 'prim': 'PUT XOR twice' if xor else 'GET+PUT PSET', 'get': list(src), 'put': list(dst) if xor else [tlx, tly]}
         s0 = g.active()
         try:
-            c_get = g.direct(b'GET(%d,%d)-(%d,%d),A%%' % src)
+            if step:
+                self.history(rng)
+                s0 = g.active()
+                self.res.count('form_get_step')
+                c_get = g.direct(b'GET(%d,%d)-STEP(%d,%d),A%%' % (x0, y0, x1 - x0, y1 - y0))
+            else:
+                c_get = g.direct(b'GET(%d,%d)-(%d,%d),A%%' % src)
             if xor:
                 put = b'PUT(%d,%d),A%%,XOR' % dst
                 c_put1 = g.direct(put)
@@ -320,7 +466,7 @@ def random_case(ctx, rng):
     r = rng.random()
     if r < 0.15:
         p = rand_point(rng, g)
-        ctx.pset(rng, p[0], p[1])
+        ctx.pset(rng, p[0], p[1], form=(rng.choice([b'PSET', b'PRESET']), rng.random() < 0.75) if rng.random() < 0.4 else None)
     elif r < 0.55:
         p0 = rand_point(rng, g)
         rr = rng.random()
@@ -340,7 +486,7 @@ def random_case(ctx, rng):
             else:
                 p1 = (p0[0] + sx * d, p0[1] + sy * max(0, 1 + e))
             p1 = (min(g.w - 1, max(0, p1[0])), min(g.h - 1, max(0, p1[1])))
-        ctx.line(rng, p0, p1)
+        ctx.line(rng, p0, p1, form=rng.choice(ctx.LINE_FORMS[1:]) if rng.random() < 0.45 else None)
     elif r < 0.75:
         p0 = rand_point(rng, g)
         rr = rng.random()
@@ -351,7 +497,7 @@ def random_case(ctx, rng):
         else:
             # long and thin
             p1 = (rng.randrange(g.w), min(g.h - 1, p0[1] + rng.randint(0, 6)))
-        ctx.box(rng, p0, p1, filled=rng.random() < 0.5)
+        ctx.box(rng, p0, p1, filled=rng.random() < 0.5, form=rng.choice(ctx.LINE_FORMS[1:]) if rng.random() < 0.45 else None)
     else:
         sw = rng.choice([rng.randint(1, 70), rng.randint(1, 18), rng.choice([7, 8, 9, 15, 16, 17, 31, 32, 33, 63, 64, 65, 70])])
         sh = rng.choice([rng.randint(1, 40), rng.randint(1, 6)])
@@ -374,7 +520,10 @@ def random_case(ctx, rng):
             dst = (rng.randint(0, g.w - 2 * sw), rng.randint(0, g.h - sh))
         else:
             dst = (rng.randint(0, g.w - sw), rng.randint(0, g.h - sh))
-        ctx.sprite(rng, src, dst, xor)
+        ctx.sprite(rng, src, dst, xor, step=rng.random() < 0.3)
+        if rng.random() < 0.2:
+            r = rng.randint(0, 25)
+            ctx.circle_step(rng, (rng.randint(r + 20, g.w - r - 21) if g.w > 2 * r + 42 else g.w // 2, rng.randint(r + 1, g.h - r - 2)), r)
     ctx.n += 1
 
 
@@ -436,6 +585,28 @@ def directed(ctx):
         ctx.sprite(rng, (x0, y0, x0 + sw - 1, y0 + sh - 1), (x0, y0), xor=True)
 
 
+def directed_forms(ctx):
+    """Seed-independent: every coordinate form of every primitive after a history that moved the last point."""
+    g = ctx.g
+    rng = random.Random('C31:directed-forms:%s' % g.mode['label'])
+    w, h = g.w, g.h
+    cx, cy = w // 2 - 5, h // 2 + 3
+    for form in ctx.LINE_FORMS:
+        for (p0, p1) in [((cx, cy), (cx + 23, cy + 9)), ((cx + 30, cy - 20), (cx - 4, cy + 31)), ((3, h - 4), (w - 5, 2))]:
+            ctx.line(rng, p0, p1, form=form)
+            ctx.box(rng, p0, (p0[0] + (p1[0] - p0[0]) // 3, p0[1] + (p1[1] - p0[1]) // 3), False, form=form)
+            ctx.box(rng, (p1[0] - (p1[0] - p0[0]) // 4, p1[1] - (p1[1] - p0[1]) // 4), p1, True, form=form)
+    for word in (b'PSET', b'PRESET'):
+        for step in (True, False):
+            for (x, y) in [(cx, cy), (0, 0), (w - 1, h - 1), (cx + 40, cy - 30)]:
+                ctx.pset(rng, x, y, form=(word, step))
+    for (c, r) in [((cx, cy), 9), ((40, 30), 0), ((w - 30, h - 25), 20), ((cx - 20, cy + 10), 3)]:
+        ctx.circle_step(rng, c, r)
+    for (x0, y0, sw, sh) in [(40, 20, 13, 5), (47, 33, 8, 8), (60, 50, 1, 1), (33, 41, 17, 2)]:
+        ctx.sprite(rng, (x0, y0, x0 + sw - 1, y0 + sh - 1), (x0, y0), xor=False, step=True)
+        ctx.sprite(rng, (x0 + sw - 1, y0 + sh - 1, x0, y0), (x0, y0), xor=False, step=True)
+
+
 def directed_histories(ctx):
     """Seed-independent: a reduced geometry table after every page / mode-change history."""
     g, res = ctx.g, ctx.res
@@ -479,6 +650,7 @@ def run_mode(spec, rng, res, label):
                     if phase == 'directed':
                         background(g, bg)
                         directed(ctx)
+                        directed_forms(ctx)
                         directed_histories(ctx)
                     else:
                         while done < spec['n']:
